@@ -113,6 +113,12 @@ let () =
        | Some l -> "ok " ^ hexbytes l
        | None -> "none")
     | _ -> "?args");
+  (* isokey R aes filekey num gen -> Algorithm 1 / 1.A *)
+  register "isokey" (fun args -> match args with
+    | [r; aes; key; num; gen] ->
+      let d = mk_iso r "16" "0" "1" "-" "-" "-" "-" "-" "-" in
+      hexbytes (iso_object_key d (unhexbytes key) (aes = "1") (n_of_string num) (n_of_string gen))
+    | _ -> "?args");
   (* kdenc V aes filekey num gen iv data -> what the model of the writer emits *)
   register "kdenc" (fun args -> match args with
     | [v; aes; key; num; gen; iv; data] ->
